@@ -119,7 +119,10 @@ class BBAN(common.Base):
         branch_code_length: int = ranges[Component.BRANCH_CODE].length
         account_code_length: int = ranges[Component.ACCOUNT_CODE].length
 
-        if len(components[Component.BANK_CODE]) == bank_code_length + branch_code_length:
+        if (
+            branch_code_length
+            and len(components[Component.BANK_CODE]) == bank_code_length + branch_code_length
+        ):
             components[Component.BRANCH_CODE] = components[Component.BANK_CODE][
                 bank_code_length : bank_code_length + branch_code_length
             ]
